@@ -33,6 +33,8 @@ pub enum Profile {
     AJ { ballast: u8, times: Vec<u8> },
     /// barriers
     D { access: Vec<(Vec<u8>, Vec<u8>)> },
+    /// barriers x balancing: barrier or {-, R_A, W_A, R_B, W_B} x running time {1, 5}
+    DJ,
     /// batches; `inner_max`: max number of ops in an inner plan
     E { inner_max: usize, rich: bool },
     /// thread-local
@@ -160,6 +162,7 @@ impl Profile {
             Profile::C3 { times } => format!("C3(funnel over 3 resources, writers, canonical up to resource renaming, times {:?})", times),
             Profile::AJ { ballast, times } => format!("AJ(ballast of weight {} first, then access {{-,R,W}}^{{A,B,C}} x times {:?}: groups of 2+ form)", ballast, times),
             Profile::D { access } => format!("D(barriers; {} access sets)", access.len()),
+            Profile::DJ => "DJ(barriers x balancing: barrier or {-,R_A,W_A,R_B,W_B} x time {1,5})".to_string(),
             Profile::E { inner_max, rich } => format!("E(batches; inner plans of <= {} ops, rich {})", inner_max, rich),
             Profile::F => "F(thread-local)".to_string(),
             Profile::EB => "EB(small batch alphabet)".to_string(),
@@ -221,6 +224,14 @@ impl Profile {
                         for t in times {
                             out.push((s(name.clone(), &r, &w, *t, vec![]), false));
                         }
+                    }
+                }
+            }
+            Profile::DJ => {
+                out.push((Op::Barrier, false));
+                for (r, w) in [(vec![], vec![]), (vec![0u8], vec![]), (vec![], vec![0u8]), (vec![1u8], vec![]), (vec![], vec![1u8])] {
+                    for t in [1u8, 5] {
+                        out.push((s(name.clone(), &r, &w, t, vec![]), false));
                     }
                 }
             }
@@ -734,6 +745,16 @@ pub fn families(nmax: usize) -> Vec<(String, Vec<Op>)> {
             let mut v: Vec<Op> = (0..n).map(|i| s(nm(i), &[], &[(i % 3) as u8], 3, vec![])).collect();
             v.push(s("sink".into(), &[0], &[], 3, (0..n).map(nm).collect()));
             out.push((format!("fan-in-rw({})", n), v));
+        }
+        if n <= 24 {
+            // a heavy "ballast" system first, then n light systems tied together only by dependencies /
+            // by one resource / alternately: the light ones queue up in one group until it is full
+            let ballast = |v: Vec<Op>| -> Vec<Op> { std::iter::once(s("ballast".into(), &[], &[], 5, vec![])).chain(v).collect() };
+            out.push((format!("ballast+dep-chain({})", n), ballast((0..n).map(|i| s(nm(i), &[], &[], 1, if i == 0 { vec![] } else { vec![nm(i - 1)] })).collect())));
+            out.push((format!("ballast+writers({})", n), ballast((0..n).map(|i| s(nm(i), &[], &[0], 1, vec![])).collect())));
+            out.push((format!("ballast+reader-writer({})", n), ballast((0..n).map(|i| if i % 2 == 0 { s(nm(i), &[0], &[], 1, vec![]) } else { s(nm(i), &[], &[0], 1, vec![]) }).collect())));
+            out.push((format!("ballast+dep-chain-sharing-nothing-then-writer({})", n), ballast((0..n).map(|i| s(nm(i), &[], &[], 1, if i == 0 { vec![] } else { vec![nm(i - 1)] })).chain(std::iter::once(s("w".into(), &[], &[1], 1, vec![nm(n - 1)]))).collect())));
+            out.push((format!("barrier+ballast+writers({})", n), std::iter::once(s("pre".into(), &[], &[1], 3, vec![])).chain(std::iter::once(Op::Barrier)).chain(ballast((0..n).map(|i| s(nm(i), &[], &[0], 1, vec![])).collect())).collect()));
         }
         if n <= 24 {
             // n thread-local systems (beyond the inline capacity of the thread-local list), alone and mixed
